@@ -791,8 +791,15 @@ class _StringLiteral(str):
         return self._parse_function(${ctx}_text, _pos)
 
 
+class _BytesLiteral(bytes):
+    def __call__(self, ${ctx}_text, _pos):
+        return self._parse_function(${ctx}_text, _pos)
+
+
 def _wrap_string_literal(string_value, parse_function):
-    result = _StringLiteral(string_value)
+    # (A bytes literal stays a bytes value.)
+    is_bytes = isinstance(string_value, bytes)
+    result = (_BytesLiteral if is_bytes else _StringLiteral)(string_value)
     result._parse_function = parse_function
     return result
 
